@@ -36,6 +36,9 @@ func (a *IncrementalAlterConfigsResponse) decode(pd packetDecoder, version int16
 		return err
 	}
 
+	if responseCount < 0 {
+		return errInvalidArrayLength
+	}
 	a.Resources = make([]*AlterConfigsResourceResponse, responseCount)
 
 	for i := range a.Resources {
